@@ -382,6 +382,50 @@ theorem truncation_safe_dqm_closed (crc32 : Bytes → Nat) (inflate : Bytes → 
     (fun i hi => by have := hocc i hi; simp only [List.length_append] at this; omega) hdir hnpz (by omega)
     (fun _ => ⟨VarsOK_real _ hl hvlen, by rw [serializeLabels_length, hn]⟩)
 
+/-- **DQM files cut at any byte offset, with NO condition on the payload, for the loader that checks the section length**
+    (dimod after the round-7 repair: `blob = file_like.read(length); if len(blob) != length: raise`; which of the two the
+    source does is regenerated as `Gen.dqmChecksSectionLength`): `np.load` is reached only with the complete section, so
+    a payload that spells an end record or a whole archive cannot be mistaken for one — every proper prefix raises or
+    returns the original with only `VARS` padding lost, given only that the COMPLETE blob loads.
+    `_partial`: the opener compares with `npz.length`, the length recorded in THIS file's frame, instead of the number read
+    from the frame of the prefix — the two agree on every prefix in which the opener is reached (the 4-byte length field
+    has then been read completely), an argument made outside Lean. -/
+theorem truncation_safe_dqm_length_checked_partial (parse : Bytes → Option (Bool × H)) (parseVars : Bytes → Option (List J))
+    (openNpz : Bytes → Option (List NpyMember)) (hdrText npz varsText : Bytes) (labelled : Bool) (h : H) (c : DqmContent)
+    (labels : List J) (hh : HeaderOK parse hdrText (labelled, h)) (wf : DqmWF c)
+    (hfull : openNpz npz = some (dqmMembers c)) (hsz : npz.length < 256 ^ 4)
+    (hv : labelled = true → VarsOK parseVars varsText labels ∧ labels.length = c.caseStarts.length) :
+    ∃ pad, pad < 64 ∧ ∀ k, k < (dqmEncode hdrText labelled npz varsText).length →
+      (∃ er, (dqmDecode parse parseVars (fun blob => (if blob.length ≠ npz.length then none else openNpz blob).bind fun ms =>
+            match dqmFromMembers ms with | .ok d => some d | _ => none)
+          (fun d => d.caseStarts.length)).run ((dqmEncode hdrText labelled npz varsText).take k) = .err er) ∨
+      ((dqmDecode parse parseVars (fun blob => (if blob.length ≠ npz.length then none else openNpz blob).bind fun ms =>
+            match dqmFromMembers ms with | .ok d => some d | _ => none)
+          (fun d => d.caseStarts.length)).run ((dqmEncode hdrText labelled npz varsText).take k) =
+            .ok ((h, c, if labelled then some labels else none), []) ∧
+        (dqmEncode hdrText labelled npz varsText).length - pad ≤ k) := by
+  have hz : ZipContract (fun blob => if blob.length ≠ npz.length then none else openNpz blob) npz (dqmMembers c) 0 :=
+    ⟨by simp [hfull], fun j hj hle => by omega, fun j hj => by
+      have : (npz.take j).length ≠ npz.length := by rw [List.length_take]; omega
+      show (if (npz.take j).length ≠ npz.length then none else openNpz (npz.take j)) = none
+      rw [if_pos this]⟩
+  obtain ⟨pad, hp, hall⟩ := truncation_safe_dqm parse parseVars _ hdrText npz varsText labelled h c labels 0 hh wf hz hsz hv
+  refine ⟨if pad < 64 then pad else 0, by split <;> omega, fun k hk => ?_⟩
+  rcases hp with hp | hp
+  · rw [if_pos hp]; exact hall k hk
+  · subst hp; simpa using hall k hk
+
+/-- **the three round-7 repairs are in the source under test** (flags regenerated by `harness/translators/fileconsts.py` from
+    `_from_file_numpy`, `ConstrainedQuadraticModel.from_file` / `_open_archive` and `read_header`): the DQM loader refuses a
+    short `BIAS` section (the loader of `truncation_safe_dqm_length_checked_partial`), the CQM loader checks that the archive
+    members tile the file from the header to the central directory, and `read_header` reads the dictionary fully.  Without
+    them the truncation property FAILS on the real code for payloads that spell an archive (`embedded_archive_opens`) and for
+    file objects with short reads; a source that drops one of them breaks this theorem, and the adversarial / short-read
+    sweeps of the harness then produce the concrete failing input. -/
+theorem loader_repairs_from_source :
+    Gen.dqmChecksSectionLength = true ∧ Gen.cqmChecksArchiveTiling = true ∧ Gen.headerReadsFully = true ∧
+    Gen.dqmLoadsWholeFile = false := by decide
+
 /-- non-vacuity: the signature side condition is a Boolean check (`sigOnlyAtEnd`, sound for the hypothesis `hocc` of the
     truncation theorems) and holds e.g. for two payload bytes followed by the end record of an empty archive; the domain
     hypothesis `InDomain` is met by the concrete CQM of `Properties/C09.lean`.  On every generated file the harness evaluates
